@@ -11,6 +11,7 @@ CONSTANTS
   MCExtra = {1}
   MCMulti = {FALSE, TRUE}
   MCHow = {"cni"}
+  MCSteal = FALSE
   MCEniGone = FALSE
   MCEnis = {1, 2}
   BadDesign = ""
